@@ -29,12 +29,13 @@ if TYPE_CHECKING:
 
 
 def _as_parameter_value(value: float | int | ArrayLike) -> float | NDArray[np.floating]:
-    """Python numbers become floats; arrays are kept, float16 / float32 promoted to
-    float64 (a narrow float would otherwise set the precision of tree evaluation)."""
+    """Python numbers become floats; NumPy scalars / arrays of integer, bool or narrow
+    float dtype are promoted to float64 (a narrow float would otherwise set the
+    precision of tree evaluation, an unsigned or narrow integer wraps around)."""
     if isinstance(value, (int, float)):
         return float(value)
     arr = np.asarray(value)
-    if arr.dtype.kind == "f" and arr.dtype.itemsize < 8:
+    if arr.dtype.kind in "biu" or (arr.dtype.kind == "f" and arr.dtype.itemsize < 8):
         arr = arr.astype(np.float64)
     return arr
 
